@@ -21,10 +21,19 @@ def call_shape(np_, variant, nargs, ctx, nres, kind):
         inside += [p.call(p.id("select"), [p.str("#"), p.dots()]), p.dots()]
     elif variant == "arg":
         inside += [p.field(p.id("arg"), "n"), p.index(p.id("arg"), p.num(1)), p.index(p.id("arg"), p.num(2))]
-    rets = [p.num(100 + i) for i in range(1, nres + 1)]
+    # half of the callees return LOCALS that are followed by further live locals (a result window
+    # must never leak the registers next to it), the others return constants
+    retlocals = (np_ + nargs + nres + len(ctx)) % 2 == 0 and variant != "dotsret"
+    pre_ret = []
+    if retlocals:
+        names = ["r%d" % i for i in range(1, nres + 1)] + ["junk1", "junk2", "junk3"]
+        pre_ret = [p.local(names, [p.num(100 + i) for i in range(1, nres + 1)] + [p.str("LEAK1"), p.str("LEAK2"), p.str("LEAK3")])]
+        rets = [p.id("r%d" % i) for i in range(1, nres + 1)]
+    else:
+        rets = [p.num(100 + i) for i in range(1, nres + 1)]
     if variant == "dotsret":
         rets.append(p.dots())
-    body = p.block([p.emit(inside), p.ret(rets)])
+    body = p.block([p.emit(inside)] + pre_ret + [p.ret(rets)])
     if kind in ("lua", "gcall"):
         ss.append(p.localfunction("callee", p.func(ps, body, va=va, ud=ud)))
         def call(args):
@@ -167,7 +176,7 @@ def tail_loops(depth):
         out.append((p, p.block(build(p))))
 
     def self_rec(p):
-        body = p.block([p.if_([p.bin("==", p.id("n"), p.num(0))], [p.block([p.ret([p.id("acc")])])]),
+        body = p.block([p.callstat(p.call(p.id("snap"), [p.num(1)])), p.if_([p.bin("==", p.id("n"), p.num(0))], [p.block([p.ret([p.id("acc")])])]),
                         p.ret([p.call(p.id("loop"), [p.bin("-", p.id("n"), p.num(1)), p.bin("+", p.id("acc"), p.num(2))])])])
         return [p.localfunction("loop", p.func(["n", "acc"], body)), p.emit([p.call(p.id("loop"), [p.num(depth), p.num(0)])])]
     mk(self_rec)
@@ -189,7 +198,7 @@ def tail_loops(depth):
     mk(via_callobj)
 
     def method_tail(p):
-        body = p.block([p.if_([p.bin("==", p.id("n"), p.num(0))], [p.block([p.ret([p.field(p.id("self"), "v")])])]),
+        body = p.block([p.callstat(p.call(p.id("snap"), [p.num(3)])), p.if_([p.bin("==", p.id("n"), p.num(0))], [p.block([p.ret([p.field(p.id("self"), "v")])])]),
                         p.ret([p.method(p.id("self"), "step", [p.bin("-", p.id("n"), p.num(1))])])])
         return [p.local(["o"], [p.table([("k", p.add("str", s=[118], name=True), p.num(5)), ("k", p.add("str", s=list(b"step"), name=True), p.func(["self", "n"], body))])]),
                 p.emit([p.method(p.id("o"), "step", [p.num(depth)])])]
@@ -202,7 +211,7 @@ def tail_loops(depth):
     mk(host_tail)
 
     def varargs_tail(p):
-        body = p.block([p.if_([p.bin("==", p.id("n"), p.num(0))], [p.block([p.ret([p.call(p.id("select"), [p.str("#"), p.dots()]), p.dots()])])]),
+        body = p.block([p.callstat(p.call(p.id("snap"), [p.num(2)])), p.if_([p.bin("==", p.id("n"), p.num(0))], [p.block([p.ret([p.call(p.id("select"), [p.str("#"), p.dots()]), p.dots()])])]),
                         p.ret([p.call(p.id("loop"), [p.bin("-", p.id("n"), p.num(1)), p.dots()])])])
         return [p.localfunction("loop", p.func(["n"], body, va=True, ud=True)), p.emit([p.call(p.id("loop"), [p.num(depth), p.num(1), p.num(2), p.num(3)])])]
     mk(varargs_tail)
